@@ -477,11 +477,15 @@ def c15(prop, tier):
         jobs.append(Job("mimc-" + c, "./std/hash/mimc", ["prelude_sym.go", "prelude_fr_sym.go", "api_field_standin.go", "c15_mimc.go"],
                         {"PKGNAME": "mimc", "FRPKG": fr_pkg(c), "NATIVEPKG": fr_pkg(c) + "/mimc", "NEWMIMC": mimc_new[c]},
                         probe_values=[["3", "7", "11"], ["1", "0", "5"]]))
+    for c in (["bn254", "bls12-377"] if tier == "quick" else CURVES):
+        jobs.append(Job("poseidon2-" + c, "./std/permutation/poseidon2", ["prelude_sym.go", "prelude_fr_sym.go", "api_field_standin.go", "c15_poseidon2.go"],
+                        {"PKGNAME": "poseidon2", "FRPKG": fr_pkg(c), "NATIVEPKG": fr_pkg(c) + "/poseidon2"},
+                        probe_values=[["3", "7", "11", "13"], ["1", "0", "5", "2"]]))
     return run_property(prop, tier, jobs,
-                        title="C15 (padding only): Merkle-Damgard padding of the SHA-2 and RIPEMD-160 gadgets for every message length 0..137 and pad10*1 of the SHA-3/Keccak gadgets for every rate, domain byte and the lengths around the block boundary, with symbolic message bytes; variable-length SHA-256 (FixedLengthSum): the in-circuit padding logic run against a frontend.API stand-in with the meaning of each call (real hints, real math/big), symbolic message bytes, buffer of 120 bytes, lengths at the block boundaries (quick) / every length 0..120 (thorough): the compression calls receive exactly the padded blocks, chained from the seed, and the digest is the state after ceil((L+9)/64) blocks; variable-length SHA-3 paddingFixedWidth (rates 136/72, domain bytes 0x06/0x01, buffer 150): msg[:L] || pad10*1 exactly and numberOfBlocks = floor(L/rate)+1; MiMC: for messages of 1..2 symbolic field elements the gadget's digest (run against a field-valued API stand-in) and gnark-crypto's native digest are the same field expression (same constants table, rounds, exponent 5/7/17, key schedule, feed-forward), per curve.",
+                        title="C15 (padding only): Merkle-Damgard padding of the SHA-2 and RIPEMD-160 gadgets for every message length 0..137 and pad10*1 of the SHA-3/Keccak gadgets for every rate, domain byte and the lengths around the block boundary, with symbolic message bytes; variable-length SHA-256 (FixedLengthSum): the in-circuit padding logic run against a frontend.API stand-in with the meaning of each call (real hints, real math/big), symbolic message bytes, buffer of 120 bytes, lengths at the block boundaries (quick) / every length 0..120 (thorough): the compression calls receive exactly the padded blocks, chained from the seed, and the digest is the state after ceil((L+9)/64) blocks; variable-length SHA-3 paddingFixedWidth (rates 136/72, domain bytes 0x06/0x01, buffer 150): msg[:L] || pad10*1 exactly and numberOfBlocks = floor(L/rate)+1; MiMC: for messages of 1..2 symbolic field elements the gadget's digest (run against a field-valued API stand-in) and gnark-crypto's native digest are the same field expression (same constants table, rounds, exponent 5/7/17, key schedule, feed-forward), per curve; Poseidon2: widths 2 and 3, rounds (6,26) and (8,4): the gadget's permutation and the native one map a symbolic state to the same field expressions lane by lane (matrices, S-box degree, round structure, round keys), Compress = right lane + right input.",
                         design_ref="DESIGN.md §3 C15",
                         assumptions=["message lengths are enumerated (slice lengths are concrete in the executor); message bytes are symbolic"],
-                        outside=["the compression / permutation functions (tens of thousands of table-lookup constraints over a 254-bit field)", "Poseidon2", "SHA-3's absorbingFixedWidth block selection", "constraint-level soundness of the variable-length padding (the stand-in evaluates the honest computation)", "Merkle and Fiat-Shamir helpers"])
+                        outside=["the compression / permutation functions (tens of thousands of table-lookup constraints over a 254-bit field)", "Poseidon2 widths other than 2 and 3 (the native implementation has none)", "SHA-3's absorbingFixedWidth block selection", "constraint-level soundness of the variable-length padding (the stand-in evaluates the honest computation)", "Merkle and Fiat-Shamir helpers"])
 
 
 def c13(prop, tier):
